@@ -148,6 +148,61 @@ def ob_generator(cx):
     cx.observe("shown", [lr.revno for lr in got])
 
 
+def ob_file_filter(cx):
+    """_filter_revisions_touching_path (log FILE): over a merge-sorted view with SYMBOLIC merge depths, the result is
+    exactly - and in view order - the revisions that changed the file plus, for each of them, the revisions that merged
+    it (the nearest earlier revision of each shallower depth), or only the mainline ones without include_merges."""
+    L = cx.mod(LG)
+    T = cx.truth
+    view = _view(cx, True)
+    n = len(view)
+    if n == 0:
+        cx.assume(False)
+    ids = [b"rev%d" % i for i in range(n)]
+    revs = [(ids[i], view[i][1], view[i][2]) for i in range(n)]
+    modified = [bool(cx.choose("modified%d" % i, 0, 1)) for i in range(n)]
+    include_merges = bool(cx.choose("include_merges", 0, 1))
+
+    class FileGraph:
+        @staticmethod
+        def get_parent_map(keys):
+            return {k: () for k in keys if modified[ids.index(k[1])]}
+
+    class Tree:
+        @staticmethod
+        def path2id(path):
+            return b"file-id"
+
+    class Branch:
+        class repository:
+            get_file_graph = staticmethod(lambda: FileGraph)
+            revision_tree = staticmethod(lambda rev_id: Tree)
+    got = L._filter_revisions_touching_path(Branch, "f", list(revs), include_merges=include_merges)
+    # reference
+    selected = [False] * n
+    for i in range(n):
+        if not modified[i]:
+            continue
+        selected[i] = True
+        level = revs[i][2]
+        j = i - 1
+        while j >= 0 and T(level > 0):
+            if T(revs[j][2] < level):
+                selected[j] = True           # the revision that merged revision i's line at this level
+                level = revs[j][2]
+            j -= 1
+    want = [revs[i] for i in range(n) if selected[i] and (include_merges or T(revs[i][2] == 0))]
+    cx.require(len(got) == len(want), "log FILE lists %d revisions, expected %d (%r)" %
+               (len(got), len(want), [ids.index(g[0]) for g in got]))
+    for g, w in zip(got, want):
+        cx.require(g[0] == w[0], "log FILE lists revision %d where revision %d is expected" % (ids.index(g[0]), ids.index(w[0])))
+    if any(T(revs[i][2] >= 2) and modified[i] for i in range(n)):
+        cx.cover("deep_change")
+    if any(selected[i] and not modified[i] for i in range(n)):
+        cx.cover("merging_revision")
+    cx.observe("got", [ids.index(g[0]) for g in got])
+
+
 class _MainRev(bytes):
     """mainline revision number i as a revision id (symbolic i)"""
     def __new__(cls, cx, i):
@@ -252,6 +307,9 @@ def obligations(tier):
            ["listed", "not_ancestor", "excluded_start"],
            bounds="mainline of 1..%d revisions (symbolic), start / end anywhere on it or absent, common ancestry excluded or not"
                   % (5 if q else 9)),
+        Ob("file_filter", ob_file_filter, [LG], dict(n=5 if q else 7), to, 2 if q else 1, ["deep_change", "merging_revision"],
+           bounds="merge-sorted views of <= %d revisions with symbolic merge depths, any subset of them changing the file, "
+                  "with / without merge revisions" % (5 if q else 7)),
         Ob("reverse_by_depth", ob_reverse, [LG], p, to, 1, ["involution", "nested"],
            bounds="views of <= %(n)d revisions, symbolic depths constrained to merge-sorted profiles" % p),
         Ob("rebase_merge_depth", ob_rebase, [LG], dict(n=4 if q else 5), to, 1, ["rebased", "unchanged"],
